@@ -34,11 +34,14 @@ type prog struct {
 	// configurable and nothing makes them distinct across roles; testrun uses one
 	// id for both)
 	SharedIDs bool
+	// DupDuring: while the acknowledgement that completes a checkpoint is being
+	// processed, the same acknowledgement arrives once more (an RPC retry)
+	DupDuring bool
 	Ops       []op
 }
 
 func gen(rt *rapid.T) prog {
-	p := prog{NOps: rapid.IntRange(1, 4).Draw(rt, "nops"), NSRs: rapid.IntRange(1, 4).Draw(rt, "nsrs"), SharedIDs: rapid.IntRange(0, 3).Draw(rt, "sharedids") == 0}
+	p := prog{NOps: rapid.IntRange(1, 4).Draw(rt, "nops"), NSRs: rapid.IntRange(1, 4).Draw(rt, "nsrs"), SharedIDs: rapid.IntRange(0, 3).Draw(rt, "sharedids") == 0, DupDuring: rapid.IntRange(0, 2).Draw(rt, "dupduring") == 0}
 	n := rapid.IntRange(2, 50).Draw(rt, "n")
 	for i := 0; i < n; i++ {
 		p.Ops = append(p.Ops, op{
@@ -53,9 +56,15 @@ func gen(rt *rapid.T) prog {
 
 type splitter struct {
 	connectors.UnimplementedSourceSplitter
+	during func() // runs while the store asks the splitter for its state (the last acknowledgement is being processed)
 }
 
-func (s *splitter) Checkpoint() []byte { return []byte("splitter-state") }
+func (s *splitter) Checkpoint() []byte {
+	if s.during != nil {
+		s.during()
+	}
+	return []byte("splitter-state")
+}
 
 type pending struct {
 	id        uint64
@@ -70,10 +79,30 @@ func exec(p prog, c *hx.Case) error {
 	events := make(chan string, 64)
 	errc := make(chan error, 64)
 	retained := make(chan []uint64, 64)
+	// the retried acknowledgement (see DupDuring)
+	var lastAck func() error
+	dupResults := make(chan error, 64)
+	dups := 0
+	during := func() {
+		if !p.DupDuring || lastAck == nil {
+			return
+		}
+		again := lastAck
+		dups++
+		done := make(chan struct{})
+		go func() {
+			dupResults <- again()
+			close(done)
+		}()
+		select {
+		case <-done:
+		case <-time.After(300 * time.Microsecond): // (it waits for the store's lock: the first one is still being processed)
+		}
+	}
 	newStore := func() *snapshots.Store {
 		s := snapshots.NewStore(&snapshots.NewStoreParams{FileStore: loc, SavepointsPath: "savepoints", CheckpointsPath: "checkpoints",
 			CheckpointEvents: events, ErrChan: errc, RetainedCheckpointsUpdated: retained})
-		s.RegisterSourceSplitter(&splitter{})
+		s.RegisterSourceSplitter(&splitter{during: during})
 		return s
 	}
 	store := newStore()
@@ -106,7 +135,7 @@ func exec(p prog, c *hx.Case) error {
 		return all[who%len(all)]
 	}
 	var pend *pending
-	var lastID uint64      // last id handed out by this store instance (or loaded)
+	var lastID uint64       // last id handed out by this store instance (or loaded)
 	var maxPublished uint64 // largest id ever published
 	published := map[uint64]bool{}
 	badAcks, restarts, completed, abandoned := 0, 0, 0, 0
@@ -264,8 +293,12 @@ func exec(p prog, c *hx.Case) error {
 					loc.Put("work/"+who+"/checkpoints", []byte(fmt.Sprintf(`{"checkpoints":[{"id":%d,"wals":[],"levels":[]}]}`, id)))
 				}
 			}
-			err := store.AddOperatorSnapshot(&snapshotpb.OperatorCheckpoint{CheckpointId: id, OperatorId: who, DkvFileUri: uri,
-				KeyGroupRange: &snapshotpb.KeyGroupRange{Start: 0, End: 1}})
+			st0 := store
+			lastAck = func() error {
+				return st0.AddOperatorSnapshot(&snapshotpb.OperatorCheckpoint{CheckpointId: id, OperatorId: who, DkvFileUri: uri,
+					KeyGroupRange: &snapshotpb.KeyGroupRange{Start: 0, End: 1}})
+			}
+			err := lastAck()
 			if pend == nil || id != pend.id {
 				badAcks++
 				if err == nil {
@@ -292,7 +325,11 @@ func exec(p prog, c *hx.Case) error {
 			}
 			id := uint64(int64(base) + int64(o.IDOff))
 			states := [][]byte{append([]byte(who+":"), o.State...)}
-			err := store.AddSourceSnapshot(&jobpb.SourceRunnerCheckpointCompleteRequest{CheckpointId: id, SourceRunnerId: who, SplitStates: states})
+			st0 := store
+			lastAck = func() error {
+				return st0.AddSourceSnapshot(&jobpb.SourceRunnerCheckpointCompleteRequest{CheckpointId: id, SourceRunnerId: who, SplitStates: states})
+			}
+			err := lastAck()
 			if pend == nil || id != pend.id {
 				badAcks++
 				if err == nil {
@@ -319,7 +356,7 @@ func exec(p prog, c *hx.Case) error {
 			// checkpoint in flight can never complete and is given up; its id stays
 			// used, acknowledgements for it that arrive later are foreign
 			store.AbandonPendingSnapshot()
-			store.RegisterSourceSplitter(&splitter{})
+			store.RegisterSourceSplitter(&splitter{during: during})
 			if pend != nil {
 				abandoned++
 			}
@@ -344,6 +381,16 @@ func exec(p prog, c *hx.Case) error {
 			pend = nil
 			lastID = maxPublished
 			restarts++
+		}
+		for drained := false; !drained; {
+			select {
+			case derr := <-dupResults:
+				if derr == nil {
+					return hx.Errf("step %d: an acknowledgement that arrived a second time, while the first was completing the checkpoint, was accepted", step)
+				}
+			default:
+				drained = true
+			}
 		}
 		if pend != nil && complete(pend) {
 			if err := verify(step, pend); err != nil {
@@ -371,6 +418,7 @@ func exec(p prog, c *hx.Case) error {
 		c.NonTrivial()
 	}
 	c.LabelIf(restarts > 0, "restart")
+	c.LabelIf(dups > 0, "acknowledgement-retried-while-it-completes-the-checkpoint")
 	c.LabelIf(abandoned > 0, "pending-checkpoint-abandoned-for-a-new-assembly")
 	c.LabelIf(p.SharedIDs, "operator-and-source-runner-share-an-id")
 	c.LabelIf(completed >= 2, ">=2 published")
